@@ -372,7 +372,9 @@ func (r *bufRun) get(k *bufCons, cancelAfter int) *bufOp {
 			// this Get was still blocked when everything had gone quiet and was only released by the
 			// harness's stop: legitimate while it waited for a value that might yet be put, not when its
 			// next value had already been evicted (nothing else has touched this consumer since)
-			if d, known := r.b.Diff(k.c); known && d > r.b.Size() {
+			if d, known := r.b.Diff(k.c); known && d > 0 && d <= r.b.Size() {
+				simrt.Failf(r.mode.prop+".get-blocked-with-values-available", "consumer %d: its Get was still blocked when everything had gone quiet, although %d value(s) it has not read are in the buffer (Size()=%d): the wake-up of a Put was lost", k.id, d, r.b.Size())
+			} else if known && d > r.b.Size() {
 				simrt.Failf(r.mode.prop+".lagging-get-blocked", "consumer %d: its Get was still blocked when everything had gone quiet, although its next value had been evicted (Diff()=%d > Size()=%d): a consumer that has fallen behind gets an error from every Get, it does not wait", k.id, d, r.b.Size())
 			}
 		}
